@@ -151,7 +151,8 @@ class Ctx:
             shutil.copytree(SPEC, d)
         return d
 
-    def tlc(self, module, cfg, env=None, workers=1, timeout=1500, xmx="4g", extra=None, constants=None, tag=None):
+    def tlc(self, module, cfg, env=None, workers=1, timeout=None, xmx="4g", extra=None, constants=None, tag=None):
+        timeout = timeout or (1500 if self.tier == "quick" else 7200)   # (a loaded machine makes TLC several times slower)
         """Run TLC; returns dict(ok, generated, distinct, out, violated)."""
         d = self._specdir()
         tag = tag or ("%s-%d" % (module, len(self.checker_cmds)))
@@ -206,7 +207,7 @@ class Ctx:
                                                            states_generated=r["generated"]))
         return r
 
-    def validate(self, module, tracefile, tag=None, timeout=1500, env=None):
+    def validate(self, module, tracefile, tag=None, timeout=None, env=None):
         """Validate one recorded NDJSON trace with a trace specification; returns the verdict record."""
         tag = tag or os.path.basename(tracefile)
         res = os.path.join(self.scratch, "res-%s-%s.json" % (module, tag))
